@@ -36,8 +36,8 @@ package logdb
 //@ ensures !(length == 0 || firstIndex + length - 1 < old(lr.first())) ==> lr.last() == firstIndex + length - 1 && firstIndex <= old(lr.last()) + 1
 
 //@ func (lr *LogReader) Append [C19 C09 C04]
-//@ requires lr.valid()
-//@ requires len(entries) > 0 ==> entries[0].Index + len(entries) <= MaxUint64
+//@ requires lr.valid() [C19 C09]
+//@ requires len(entries) > 0 ==> entries[0].Index + len(entries) <= MaxUint64 [C19 C09]
 //@ modifies held(lr.Mutex), lr.length
 //@ ensures result == nil && lr.valid() && lr.markerIndex == old(lr.markerIndex)
 //@ ensures len(entries) > 0 && entries[len(entries) - 1].Index >= old(lr.first()) ==> lr.last() == entries[len(entries) - 1].Index && entries[0].Index <= old(lr.last()) + 1
